@@ -196,6 +196,10 @@ def gen_op(rng, sh, stamped, projected):
         return op
     if name in ("tl", "tr", "trp"):
         op["T"] = rand_T(rng, mag)
+        if name != "tl" and rng.random() < .25:
+            # a similarity multiplied from the right: every pose P becomes P*T with a valid rotation
+            # block (the scale has no position to act on), also in the propagating variant
+            op["T"][:3, :3] *= float(10.0**rng.uniform(-0.3, 0.3))
     elif name == "sim":
         T = rand_T(rng, mag)
         s = 10.0**rng.uniform(-0.3, 0.3)
